@@ -86,9 +86,15 @@ try:
             channel,
             force_as,
             seed,
+            offsets=None,
         ):
             super(_FeatureProcessorDataset, self).__init__()
             self.utt_path = tuple(utt2path.items())
+            # per-utterance seed offsets. Must not depend on which other utterances
+            # are (still) in utt2path
+            if offsets is None:
+                offsets = range(len(self.utt_path))
+            self.offsets = tuple(offsets)
             self.preprocessors = preprocessors
             self.computer = computer
             self.postprocessors = postprocessors
@@ -101,7 +107,7 @@ try:
 
         @torch.no_grad()
         def __getitem__(self, idx):
-            torch.manual_seed(self.seed + idx)
+            torch.manual_seed(self.seed + self.offsets[idx])
             utt_id, path = self.utt_path[idx]
             try:
                 signal = read_signal(
@@ -537,6 +543,9 @@ def signals_to_torch_feat_dir(args=None):
             )
             return 1
         utt2path[utt_id] = " ".join(ls[1:])
+    # an utterance is seeded by its position in the map so that a resumed run, which
+    # skips what the manifest lists, draws the same random numbers for the rest
+    utt2offset = dict((utt_id, idx) for (idx, utt_id) in enumerate(utt2path))
     if options.manifest is not None:
         options.manifest.seek(0)
         for line in options.manifest:
@@ -590,6 +599,7 @@ def signals_to_torch_feat_dir(args=None):
         options.channel,
         options.force_as,
         seed,
+        [utt2offset[utt_id] for utt_id in utt2path],
     )
     loader = torch.utils.data.DataLoader(dataset, num_workers=options.num_workers)
     if not os.path.isdir(options.dir):
